@@ -56,6 +56,8 @@ type numRun struct {
 	// ordering flag (learnt from the first execution's log)
 	unordered bool
 	probed    bool
+	// number of in-process findings already re-run at CLI level
+	cliConfirmed int
 }
 
 // space completes an order space with what was learnt about rev-list's flags.
@@ -134,6 +136,18 @@ func (n *numRun) one(sc *gen.Scenario, order []mrepo.ID, style sizes.NameStyle, 
 		n.states[h.Sum64()] = struct{}{}
 	}
 	mk := func(class, msg string) {
+		// an in-process finding is re-run at CLI level (real binary, real go-pipe,
+		// real exec, the model git executing the same plan) before it is
+		// reported: what does not reproduce there is the shim's fault, not a verdict
+		if n.cliConfirmed < 3 && refOrder == nil {
+			n.cliConfirmed++
+			if ok, why := confirmAtCLI(sc, order, n.owned); !ok {
+				class = "HARNESS/inproc-only"
+				msg = msg + " -- NOT reproduced by the real binary with the model git under the same plan: " + why
+			} else {
+				msg = msg + " (reproduced by the real binary with the model git under the same plan)"
+			}
+		}
 		sh.C.Violate(explore.Violation{Property: n.prop, Class: class, Msg: msg,
 			Case:   caseJSON(sh.Index(), map[string]any{"order": orderStr(order), "desc": sc.Desc}),
 			Detail: sc.Repo.Describe() + "roots: " + fmt.Sprint(sc.Roots()) + "\norder: " + orderStr(order)})
@@ -561,7 +575,7 @@ func c01Worker(sh *explore.Shard) {
 				l := defaultListing(sc)
 				n.one(sc, l.IDs, sizes.NameStyleNone, false, nil)
 				if (int64(mask)*7+int64(ei))%41 == idx%41 {
-					n.maybeConform(sc, idx, 11)
+					n.maybeConform(sc, idx, 17)
 				}
 				// one deviation from git's order: everything non-commit reversed
 				rev := reverseNonCommits(r, l)
@@ -968,6 +982,37 @@ func c09Layouts(sh *explore.Shard, sc *gen.Scenario) {
 		}
 	}
 	sh.C.Nontrivial++
+}
+
+// confirmAtCLI runs the real git-sizer with the model git executing the given
+// listing order and tells whether the real program misbehaves there too
+// (non-zero exit / panic, or an owned number different from the oracle).
+func confirmAtCLI(sc *gen.Scenario, order []mrepo.ID, owned []string) (bool, string) {
+	for _, o := range sc.Repo.Objects {
+		_ = o
+	}
+	dir := scratch("confirm")
+	defer os.RemoveAll(dir)
+	fs, err := cli.NewFakeSession(filepath.Join(dir, "fake"), sc.Repo, &modelgit.Plan{GitDir: "/model/.git", ListOrder: order})
+	if err != nil {
+		return true, "cannot set up the model git: " + err.Error()
+	}
+	args := append([]string{"--json", "--no-progress", "--names=none"}, sizerArgs(sc)...)
+	res := cli.Run(dir, cli.FakeGitDir, fs.Env(), 60*time.Second, args...)
+	if res.TimedOut || res.Exit != 0 {
+		return true, ""
+	}
+	nums, _, err := parseV1(res.Stdout)
+	if err != nil {
+		return true, ""
+	}
+	want := oracle.Compute(sc.Repo, sc.Roots()).Numbers()
+	for _, k := range owned {
+		if nums[k] != want[k] {
+			return true, ""
+		}
+	}
+	return false, "exit 0 and every owned number equals the oracle"
 }
 
 func init() {
